@@ -183,7 +183,7 @@ def rule_optab_operands(crate, min_ops=38, min_sites=30):
                 out.violation("op:%s" % v, ef, el, "%s emits %s with %d operand(s) but the VM arm at %s:%d decodes %d" % (fn, v, cnt, f, l, nd))
         else:
             out.ok("op:%s" % v, f, l, "%d emission site(s) with %d operand(s) = %d decoded" % (len(es), nd, nd))
-    # ---- advisory: disassembler table
+    # ---- the disassembler's table (Op::num_operands) agrees with the decoder
     numops = crate.find_fn("vm::Op::num_operands", required=False)
     if numops is not None:
         for n in walk(numops["body"]):
@@ -196,7 +196,10 @@ def rule_optab_operands(crate, min_ops=38, min_sites=30):
                         for v in vs:
                             if v in decode and decode[v][0] != val:
                                 f, l = crate.loc(numops, a["pat"])
-                                out.advisory("num_operands:%s" % v, f, l, "Op::num_operands says %d for %s, the VM decodes %d (disassembler only)" % (val, v, decode[v][0]))
+                                out.violation("num_operands:%s" % v, f, l, "Op::num_operands says %d for %s, but it is emitted and decoded with %d operand(s): Vm::disassemble (`numbat --debug`) gets out of step after the first such instruction and transmutes operand bytes into opcodes — undefined behaviour, `numbat --debug -e 1` aborts with 'trying to construct an enum from an invalid value'" % (val, v, decode[v][0]))
+                            elif v in decode:
+                                f, l = crate.loc(numops, a["pat"])
+                                out.ok("num_operands:%s" % v, f, l, "disassembler table agrees with the decoder (%d)" % val)
     out.analysed = {"opcodes": len(all_ops), "decoded": len(decode), "emission_sites": sites}
     out.floor("opcodes", len(decode), min_ops)
     out.floor("emission_sites", sites, min_sites)
